@@ -84,6 +84,8 @@ def list_append(it, lst, v):
     if lst.items is not None:
         lst.items.append(v)
         return
+    if lst.codec is not None:
+        v = lst.codec.encode(it, v)
     if not is_int(v):
         raise EngineError('append of non-int to symbolic int list')
     lst.arr = z3.Store(lst.arr, lst.length, zint(v))
@@ -780,7 +782,7 @@ def bi_list(it, args, kwargs):
         return PyList([])
     v = args[0]
     if isinstance(v, PyList) and v.items is None:
-        return PyList(None, v.length, v.arr, v.tag)
+        return PyList(None, v.length, v.arr, v.tag, v.codec)
     return PyList(list(it.iter_values(v)))
 
 
@@ -1016,7 +1018,10 @@ def bi_filter(it, args, kwargs):
 
 
 def bi_iter(it, args, kwargs):
-    return PyList(it.iter_values(args[0]))
+    v = args[0]
+    if isinstance(v, PyList) and v.items is None:
+        return v
+    return PyList(it.iter_values(v))
 
 
 def bi_next(it, args, kwargs):
